@@ -699,6 +699,9 @@ class SymInt:
         if isinstance(o, float) or type(o).__name__ == 'SymFloat':
             from . import floats
             return floats.from_int(self).__mul__(o)
+        if type(o).__name__ in ('timedelta', 'SymTimedelta'):
+            from . import dt
+            return dt.mk_td(dt.td_us(o) * self)
         if isinstance(o, SymBool):
             o = o._as_int()
         if isinstance(o, int):
